@@ -374,6 +374,12 @@ class FnSplicer:
                 raise ExtractError(f'{self._where()}: fn body ends in an expression; cannot append proof block')
             self.ed.insert(rf.ct(it.body[1]).start, ins, 3)
             return
+        if p.get('at') == 'after_loop':
+            kwci, ob = loops[p['loop'] - 1]
+            cb = rf.match(ob)
+            # a desugared loop (R1/R3/R5) is wrapped in one more block whose closing brace is inserted at the same offset
+            self.ed.insert(rf.ct(cb).end, '\n' + ins, 8)
+            return
         if p.get('at') == 'loop_body_start':
             kwci, ob = loops[p['loop'] - 1]
             self.ed.insert(rf.ct(ob).end, '\n' + ins, 3)
